@@ -193,11 +193,12 @@ where
 }
 
 // SAFETY: This type is safe to send between threads, as its mutable views are guaranteed to be
-// exclusive.
+// exclusive, and the views themselves (which are what this iterator gives access to) are required
+// to be `Send`.
 unsafe impl<'a, Registry, Filter, Views, Indices> Send
     for Iter<'a, Registry, Filter, Views, Indices>
 where
     Registry: registry::Registry,
-    Views: view::Views<'a>,
+    Views: view::Views<'a> + Send,
 {
 }
